@@ -148,6 +148,19 @@ CLAIMED = {
         technique="TLA+ exact-arithmetic spec + TLC exhaustive case enumeration, replay into the implementation",
         ref="5/C13",
     ),
+    "C01": dict(
+        level="model_checking",
+        text="QuatKernel.tla defines N(P) = |P|^2 R(P) as integer polynomials and checks the cleared polynomial identities of every clause "
+             "(orthonormality, determinant, scale invariance, homomorphism, tangent map x stated inverse, quaternion length kept, body-fixed "
+             "spin = w, exactness of the stencil derivative, derivative annihilates P) on an integer grid that is a uniqueness set for their "
+             "degree, i.e. for all real P. Each lattice quaternion carries the integer numerators the 16 routines (both normalising variants, "
+             "derivatives, quatprod, skew helpers) must return; the real routines are evaluated at every point and compared.",
+        note="Grid -2..2 (624 quaternions) in the quick tier, -3..3 (2400) in the thorough tier, plus 12 large-ratio points (components up to "
+             "100, incl. exact unit quaternions). Code-side agreement extends beyond the grid under the assumption that the routines compute "
+             "rational functions without branching on magnitudes (true by inspection). Floats enter through a 1e-9 snap to the integers.",
+        technique="TLA+ exact-lattice spec + TLC exhaustive grid (polynomial identity argument), replay into the implementation",
+        ref="4 and 5/C01",
+    ),
 }
 
 NOT_APPLICABLE = {
